@@ -28,6 +28,8 @@ macro "wp_forget" : tactic => `(tactic| first
   | (show Post (unmarshalToken _) _ _; apply Post.intro; intro _ _)
   | (show Post (unmarshalRoles _) _ _; apply Post.intro; intro _ _)
   | (show Post (verifyPayable _ _) _ _; apply Post.intro; intro _ _)
+  | (show Post (verifyPayableIf _ _ _) _ _; apply Post.intro; intro _ _)
+  | (show Post (checkSameHash _ _) _ _; apply Post.intro; intro _ _)
   | (show Post (isPaused _) _ _; apply Post.intro; intro _ _)
   | (show Post (checkFrozeAndPause _ _ _ _) _ _; apply Post.intro; intro _ _)
   | (show Post (getESDTDataFromKey _ _) _ _; apply Post.intro; intro _ _)
